@@ -125,4 +125,16 @@ theorem sum_ifft (F : G → K) : ∑ p, ifft E F p = F 0 := by
 theorem fft_zero (f : G → K) : fft E f 0 = ∑ a, f a := by
   simp only [fft, E.zero_left, mul_one]
 
+theorem shiftBy_one {A : Type} [One A] (c : G) : shiftBy c (1 : G → A) = 1 := rfl
+
+theorem shiftBy_list_prod (c : G) (tfs : List (G → K)) : (tfs.map (shiftBy c)).prod = shiftBy c tfs.prod := by
+  induction tfs with
+  | nil => rfl
+  | cons t ts ih => rw [List.map_cons, List.prod_cons, List.prod_cons, ih, shiftBy_mul]
+
+/-- the two conventions agree on whole lists of transfer functions -/
+theorem applyTF_shifted_eq_unshifted_list (o : G → K) (tfs : List (G → K)) :
+    applyTF (mathOps E c re absf argf) true o (tfs.map (shiftBy c)) = applyTF (mathOps E c re absf argf) false o tfs := by
+  rw [applyTF_list, shiftBy_list_prod, applyTF_shifted_eq_unshifted, ← applyTF_list]
+
 end C15L
